@@ -518,6 +518,13 @@ theorem runStep_classes {w w' : PWorld} {st : Step} (h : runStep w st = .ok w') 
       split at h
       · simp only [Except.ok.injEq] at h; rw [← h]; exact h1
       · exact (flushQueue_classes evs q w1 w' h).trans h1
+  | discard o kvs =>
+    simp only [runStep, discardObj] at h
+    split at h
+    · simp at h
+    · rename_i w1 evs q hs
+      simp only [Except.ok.injEq] at h
+      rw [← h]; exact setAllBatched_classes o kvs w w1 [] evs [] q hs
 
 /-- every installed watcher sits on an object that currently holds a dependency of the method: an
 object of the current resolution chain of one of its specs -/
